@@ -33,6 +33,8 @@ struct Params
     uint64_t sa, sb, sc;
     std::vector<uint64_t> ia, ib, ic;
     int al = 0; // 0 none, 1: result aliased to a, 2: to b
+    std::string hist;   // one letter per call of a history (empty: a single call with fresh values)
+    bool share = false; // operands a and b are the same array (same pointer)
 };
 static const uint64_t WIDE = 1ULL << 24;
 struct Skip
@@ -180,13 +182,17 @@ struct Opnd
     bool mem = false, hasidx = false, wide = false, aliased = false;
     std::vector<uint64_t> snap;
     uint64_t n = 0;
+    uint64_t gseed = 0;
+    uint64_t V[8][3]; // the operand values (element k, coefficient i) of the current call; a history derives the next call's from them
+    Opnd() { memset(V, 0, sizeof(V)); }
 };
 struct Res
 {
     uint64_t a[8][3], b[8][3], x[8][3], r[8][3];
-    std::vector<uint64_t> out, pre;
+    std::vector<uint64_t> out, pre, ia, ib, ic;
     uint64_t an = 0, bn = 0, cn = 0;
     bool inw = true, slack = true, wa = false, wb = false;
+    char kind = 'f';
     Res()
     {
         memset(a, 0, sizeof(a));
@@ -205,7 +211,8 @@ static void prep_index(Opnd &o, int L)
         o.gi.p[k] = o.idx[k];
     o.hasidx = true;
 }
-static void setup_input(Opnd &o, int L, Regs &R, Goldilocks::Element &v, vh::Rng &vr, vh::Rng &gr, int mode, uint64_t gseed, int run)
+// ---- objects of an input: index list, extent; they live through all calls of a case (a history re-uses the same addresses)
+static void plan_input(Opnd &o, int L)
 {
     prep_index(o, L);
     if (in_mem(o.d))
@@ -213,35 +220,175 @@ static void setup_input(Opnd &o, int L, Regs &R, Goldilocks::Element &v, vh::Rng
         o.mem = true;
         o.n = extent(o.d, L, o.s, o.idx);
         o.wide = o.d.kind == K_STRIDE && o.s >= WIDE;
-        if (o.wide)
-        {
-            std::vector<uint64_t> cells;
-            for (int k = 0; k < L; k++)
-                for (int i = 0; i < o.d.w; i++)
-                    cells.push_back(addr(o.d, k, i, o.s, o.idx));
-            arena_sparse(o.g, o.n, cells);
-        }
-        else
-            arena_dense(o.g, o.n);
-        // run-specific garbage in every (accessible) cell; the two runs are complementary
-        for (auto &rg : o.g.acc)
-            for (uint64_t j = rg.first; j < rg.second; j++)
-                o.g.p[j] = run ? ~mix(gseed, j) : mix(gseed, j);
-        int nk = o.d.kind == K_CONST ? 1 : L;
+    }
+}
+static void alloc_input(Opnd &o, int L)
+{
+    if (!o.mem)
+        return;
+    if (o.wide)
+    {
+        std::vector<uint64_t> cells;
+        for (int k = 0; k < L; k++)
+            for (int i = 0; i < o.d.w; i++)
+                cells.push_back(addr(o.d, k, i, o.s, o.idx));
+        arena_sparse(o.g, o.n, cells);
+    }
+    else
+        arena_dense(o.g, o.n);
+}
+static int nelems(const Opnd &o, int L) { return o.d.kind == K_CONST ? 1 : L; }
+// fresh operand values (the draw order per kind is part of the case format: a case replays identically)
+static void fresh_vals(Opnd &o, int L, vh::Rng &vr, int mode)
+{
+    if (o.mem)
+    {
+        int nk = nelems(o, L);
         for (int k = 0; k < nk; k++)
             for (int i = 0; i < o.d.w; i++)
-                o.g.p[addr(o.d, k, i, o.s, o.idx)] = val(vr, mode);
-        o.snap = arena_snap(o.g);
+                o.V[k][i] = val(vr, mode);
     }
     else if (o.d.kind == K_CONST)
-        v.fe = val(vr, mode);
+        o.V[0][0] = val(vr, mode);
+    else
+        for (int i = 0; i < o.d.w; i++)
+            for (int k = 0; k < L; k++)
+                o.V[k][i] = val(vr, mode);
+}
+static const uint64_t CORNER[] = {0, 1, 2, PR - 1, PR, PR + 1, 0xFFFFFFFFFFFFFFFFULL, 1ULL << 32, 0xFFFFFFFFULL, 1ULL << 63, (PR - 1) / 2,
+                                  0xFFFFFFFF00000000ULL, PR - 2, 0xFFFFFFFEFFFFFFFFULL, 0x7FFFFFFF80000001ULL};
+// the next call of a history: the operand is overwritten IN PLACE (same buffer, same address) with values derived from the
+// ones it held in the previous call
+//   f fresh   k kept as it is   p coordinates of every element permuted (base arrays: lanes rotated)
+//   0 1 2 basis elements (lane k gets e_(c+k)); base: 1, 0, p (= 0 non-canonical)
+//   x two coordinates xor-ed with the same mask (the xor of the three words is unchanged)
+//   a d added to one coordinate and subtracted from another (the sum of the three words mod 2^64 is unchanged)
+//   o one coordinate replaced   n every coordinate that has a second representation gets it (v < 2^32-1 <-> v + p)
+//   s small canonical words (< 2^32 - 1)   c corner words   r the elements in reverse lane order (constants: like p)
+//   i fresh values (the index lists are permuted in place by the caller)
+static void mutate_vals(Opnd &o, int L, char kd, vh::Rng &vr, int mode)
+{
+    static const int PERM3[5][3] = {{1, 0, 2}, {0, 2, 1}, {2, 1, 0}, {1, 2, 0}, {2, 0, 1}};
+    const int nk = nelems(o, L), w = o.d.w;
+    if (kd == 'r' && nk == 1)
+        kd = 'p';
+    switch (kd)
+    {
+    case 'k':
+        return;
+    case 'p':
+        if (w == 3)
+            for (int k = 0; k < nk; k++)
+            {
+                const int *q = PERM3[vr.below(5)];
+                uint64_t t[3] = {o.V[k][0], o.V[k][1], o.V[k][2]};
+                for (int i = 0; i < 3; i++)
+                    o.V[k][i] = t[q[i]];
+            }
+        else if (nk > 1)
+        {
+            uint64_t t = o.V[0][0];
+            for (int k = 0; k + 1 < nk; k++)
+                o.V[k][0] = o.V[k + 1][0];
+            o.V[nk - 1][0] = t;
+        }
+        return;
+    case '0':
+    case '1':
+    case '2':
+        for (int k = 0; k < nk; k++)
+            if (w == 3)
+                for (int i = 0; i < 3; i++)
+                    o.V[k][i] = (i == (kd - '0' + k) % 3) ? 1 : 0;
+            else
+                o.V[k][0] = kd == '0' ? 1 : kd == '1' ? 0 : PR;
+        return;
+    case 'x':
+    case 'a':
+        if (w == 3)
+            for (int k = 0; k < nk; k++)
+            {
+                int i = (int)vr.below(3), j = (i + 1 + (int)vr.below(2)) % 3;
+                uint64_t m = vr.next();
+                if (!m)
+                    m = 1;
+                if (kd == 'x')
+                {
+                    o.V[k][i] ^= m;
+                    o.V[k][j] ^= m;
+                }
+                else
+                {
+                    o.V[k][i] += m;
+                    o.V[k][j] -= m;
+                }
+            }
+        else
+            fresh_vals(o, L, vr, mode);
+        return;
+    case 'o':
+        for (int k = 0; k < nk; k++)
+        {
+            int i = (int)vr.below(w);
+            uint64_t nv = val(vr, mode);
+            o.V[k][i] = nv == o.V[k][i] ? nv + 1 : nv;
+        }
+        return;
+    case 'n':
+        for (int k = 0; k < nk; k++)
+            for (int i = 0; i < w; i++)
+            {
+                uint64_t v = o.V[k][i];
+                o.V[k][i] = v < 0xFFFFFFFFULL ? v + PR : v >= PR ? v - PR : v;
+            }
+        return;
+    case 's':
+        for (int k = 0; k < nk; k++)
+            for (int i = 0; i < w; i++)
+                o.V[k][i] = vr.below(4) == 0 ? vr.below(3) : vr.below(0xFFFFFFFFULL);
+        return;
+    case 'c':
+        for (int k = 0; k < nk; k++)
+            for (int i = 0; i < w; i++)
+                o.V[k][i] = CORNER[vr.below(sizeof(CORNER) / sizeof(CORNER[0]))];
+        return;
+    case 'r':
+        for (int k = 0; k < nk / 2; k++)
+            for (int i = 0; i < w; i++)
+                std::swap(o.V[k][i], o.V[nk - 1 - k][i]);
+        return;
+    default:
+        fresh_vals(o, L, vr, mode);
+    }
+}
+// run- and call-specific garbage in every (accessible) cell of the arena; the two runs are complementary
+static void fill_garbage(Opnd &o, int run, int step)
+{
+    if (!o.mem)
+        return;
+    uint64_t gs = o.gseed + (uint64_t)step * 0x51ED270B9F1DULL;
+    for (auto &rg : o.g.acc)
+        for (uint64_t j = rg.first; j < rg.second; j++)
+            o.g.p[j] = run ? ~mix(gs, j) : mix(gs, j);
+}
+static void store_vals(Opnd &o, int L, Regs &R, Goldilocks::Element &v, vh::Rng &gr)
+{
+    if (o.mem)
+    {
+        int nk = nelems(o, L);
+        for (int k = 0; k < nk; k++)
+            for (int i = 0; i < o.d.w; i++)
+                o.g.p[addr(o.d, k, i, o.s, o.idx)] = o.V[k][i];
+    }
+    else if (o.d.kind == K_CONST)
+        v.fe = o.V[0][0];
     else
     {
         for (int j = 0; j < 24; j++)
             R.raw[j] = gr.next();
         for (int i = 0; i < o.d.w; i++)
             for (int k = 0; k < L; k++)
-                R.raw[i * L + k] = val(vr, mode);
+                R.raw[i * L + k] = o.V[k][i];
     }
 }
 static void read_vals(const Opnd &o, int L, const Regs &R, const Goldilocks::Element &v, uint64_t out[8][3])
@@ -277,70 +424,86 @@ static void release(Opnd &o)
     if (o.hasidx)
         vh::gfree(o.gi);
 }
+static void permute_index(Opnd &o, int L, const std::vector<int> &pi)
+{
+    if (o.d.kind != K_INDEX)
+        return;
+    std::vector<uint64_t> nx(L);
+    for (int k = 0; k < L; k++)
+        nx[k] = o.idx[pi[k]];
+    o.idx = nx;
+    for (int k = 0; k < L; k++)
+        o.gi.p[k] = nx[k]; // overwritten in place: the list stays at its address
+}
+static std::vector<int> rand_perm(int L, vh::Rng &vr)
+{
+    std::vector<int> p(L);
+    for (int k = 0; k < L; k++)
+        p[k] = k;
+    for (int k = L - 1; k > 0; k--)
+        std::swap(p[k], p[vr.below(k + 1)]);
+    return p;
+}
 
-static void one_run(const Row &row, const Params &P, int run, Res &res)
+// One run of a case: a single call, or a HISTORY of calls (P.hist, one letter per call) made one after the other in this
+// process and thread on the SAME objects -- arenas, index lists, precomputed sums, the result arena and the register
+// context keep their addresses; between two calls their contents are overwritten in place.  Every call is recorded like a
+// single call (operands read back before it, results after it).
+static void one_run(const Row &row, const Params &P, int run, std::vector<Res> &hist_out)
 {
     const int L = row.L;
+    const std::string hist = P.hist.empty() ? std::string("f") : P.hist;
+    const int H = (int)hist.size();
     vh::Rng vr(P.seed), gr(P.seed * 0x2545F4914F6CDD1DULL + 0x1234567 + (uint64_t)run * 0x9E3779B97F4A7C15ULL);
     Ctx x;
     memset(&x, 0, sizeof(x));
     Opnd A, B, C;
+    vh::GBuf gx;
+    bool hasx = false;
     struct Guard
     {
         Opnd *o[3];
+        vh::GBuf *gx;
+        bool *hasx;
         ~Guard()
         {
             for (auto q : o)
                 release(*q);
+            if (*hasx)
+                vh::gfree(*gx);
         }
-    } guard{{&C, &A, &B}};
-    A.d = row.a; A.s = P.sa; A.idx = P.ia;
-    B.d = row.b; B.s = P.sb; B.idx = P.ib;
+    } guard{{&C, &A, &B}, &gx, &hasx};
+    A.d = row.a; A.s = P.sa; A.idx = P.ia; A.gseed = P.seed ^ 0xA0A0A0;
+    B.d = row.b; B.s = P.sb; B.idx = P.ib; B.gseed = P.seed ^ 0xB1B1B1;
     C.d = row.c; C.s = P.sc; C.idx = P.ic;
     if ((P.al == 1 && !row.alias_a) || (P.al == 2 && !row.alias_b))
         throw HarnessError{"alias mode not offered by the row"};
-    setup_input(A, L, x.A, x.va, vr, gr, P.mode, P.seed ^ 0xA0A0A0, run);
-    setup_input(B, L, x.B, x.vb, vr, gr, P.mode, P.seed ^ 0xB1B1B1, run);
-    read_vals(A, L, x.A, x.va, res.a);
-    read_vals(B, L, x.B, x.vb, res.b);
-    // precomputed sums of b (challenge variants): b0+b1, b0+b2, b1+b2 in some representation
-    vh::GBuf gx;
-    bool hasx = false;
-    std::vector<uint64_t> xsnap;
-    memset(res.x, 0, sizeof(res.x));
-    if (row.aux != AUX_NONE)
+    plan_input(A, L);
+    plan_input(B, L);
+    if (H > 1 && (A.wide || B.wide))
+        throw HarnessError{"history with a huge stride"};
+    if (P.share)
     {
-        for (int j = 0; j < 24; j++)
-            x.X.raw[j] = gr.next();
-        int nk = row.aux == AUX_CONST ? 1 : L;
-        for (int k = 0; k < nk; k++)
-        {
-            uint64_t s[3] = {addp(res.b[k][0], res.b[k][1]), addp(res.b[k][0], res.b[k][2]), addp(res.b[k][1], res.b[k][2])};
-            for (int i = 0; i < 3; i++)
-            {
-                if (vr.next() % 3 == 0 && s[i] < 0xFFFFFFFFULL)
-                    s[i] += PR;
-                res.x[k][i] = s[i];
-            }
-        }
-        if (row.aux == AUX_CONST)
-        {
-            for (int k = 1; k < L; k++)
-                for (int i = 0; i < 3; i++)
-                    res.x[k][i] = res.x[0][i];
-            gx = vh::galloc(3, 0);
-            hasx = true;
-            for (int i = 0; i < 3; i++)
-                gx.p[i] = res.x[0][i];
-            xsnap.assign(gx.p, gx.p + 3);
-            x.px = (Goldilocks::Element *)gx.p;
-        }
-        else
-            for (int k = 0; k < L; k++)
-                for (int i = 0; i < 3; i++)
-                    x.X.raw[i * L + k] = res.x[k][i];
+        // the two inputs are the SAME array (pa == pb): one arena that ends at the larger of the two footprints
+        if (!A.mem || !B.mem || A.wide || B.wide || P.al)
+            throw HarnessError{"shared inputs need two memory operands, no alias mode, no huge stride"};
+        uint64_t n = std::max(A.n, B.n);
+        A.n = B.n = n;
+        arena_dense(A.g, n);
+        B.g = A.g;
+        B.g.shared = true;
     }
-    // result
+    else
+    {
+        alloc_input(A, L);
+        alloc_input(B, L);
+    }
+    if (row.aux == AUX_CONST)
+    {
+        gx = vh::galloc(3, 0);
+        hasx = true;
+        x.px = (Goldilocks::Element *)gx.p;
+    }
     prep_index(C, L);
     Opnd *AL = P.al == 1 ? &A : P.al == 2 ? &B : nullptr;
     if (in_mem(C.d))
@@ -352,35 +515,15 @@ static void one_run(const Row &row, const Params &P, int run, Res &res)
             // in place: the result arena IS the operand's arena (pointer equality), addressed identically
             if (!AL->mem || AL->wide || AL->n != C.n)
                 throw HarnessError{"aliased operand and result have different extents"};
-            for (int k = 0; k < L; k++)
-                for (int i = 0; i < 3; i++)
-                    if (addr(C.d, k, i, C.s, C.idx) != addr(AL->d, k, i, AL->s, AL->idx))
-                        throw HarnessError{"aliased operand is not addressed like the result"};
             C.g = AL->g;
             C.g.shared = true;
             AL->aliased = true;
         }
         else
-        {
             arena_dense(C.g, C.n);
-            for (uint64_t j = 0; j < C.n; j++)
-                C.g.p[j] = run ? ~mix(P.seed ^ 0xC16C16, j) : mix(P.seed ^ 0xC16C16, j);
-        }
-        res.pre.assign(C.g.p, C.g.p + C.n);
     }
-    else
-    {
-        for (int j = 0; j < 24; j++)
-            x.C.raw[j] = gr.next();
-        if (AL)
-        {
-            if (AL->mem || AL->d.w != 3)
-                throw HarnessError{"register result aliased to a non-register operand"};
-            x.C = P.al == 1 ? x.A : x.B; // the in-place call site passes x.C as the operand
-        }
-    }
-    res.an = A.n; res.bn = B.n; res.cn = C.n;
-    res.wa = A.wide; res.wb = B.wide;
+    else if (AL && (AL->mem || AL->d.w != 3))
+        throw HarnessError{"register result aliased to a non-register operand"};
     x.pa = A.mem ? (Goldilocks::Element *)A.g.p : nullptr;
     x.pb = B.mem ? (Goldilocks::Element *)B.g.p : nullptr;
     x.pc = C.mem ? (Goldilocks::Element *)C.g.p : nullptr;
@@ -388,23 +531,137 @@ static void one_run(const Row &row, const Params &P, int run, Res &res)
     x.ia = A.hasidx ? A.gi.p : nullptr;
     x.ib = B.hasidx ? B.gi.p : nullptr;
     x.ic = C.hasidx ? C.gi.p : nullptr;
-
     void (*fn)(Ctx &) = row.call;
     if (AL && !C.mem)
         fn = P.al == 1 ? row.call_a : row.call_b;
     if (!fn)
         throw HarnessError{"no in-place call site"};
-    fn(x);
 
-    for (int k = 0; k < L; k++)
-        for (int i = 0; i < 3; i++)
-            res.r[k][i] = C.mem ? C.g.p[addr(C.d, k, i, C.s, C.idx)] : x.C.raw[i * L + k];
-    if (C.mem)
-        res.out.assign(C.g.p, C.g.p + C.n);
-    res.inw = unchanged(A, L) && unchanged(B, L) && unchanged(C, L, false) && (!hasx || memcmp(gx.p, xsnap.data(), 24) == 0);
-    res.slack = slack_ok(A) && slack_ok(B) && slack_ok(C) && (!hasx || vh::gslack_ok(gx));
-    if (hasx)
-        vh::gfree(gx);
+    for (int step = 0; step < H; step++)
+    {
+        const char kd = hist[step];
+        hist_out.emplace_back();
+        Res &res = hist_out.back();
+        res.kind = kd;
+        if (kd == 'i')
+        {
+            // the index lists are overwritten in place with a permutation of themselves (same footprint, same extent); the
+            // result and an operand it is aliased to stay addressed alike: both permuted the same way, or neither
+            std::vector<int> pc = rand_perm(L, vr), pa = rand_perm(L, vr), pb = rand_perm(L, vr);
+            if (AL)
+            {
+                if (C.d.kind == K_INDEX && AL->d.kind == K_INDEX)
+                    permute_index(*AL, L, pc);
+                if (C.d.kind != K_INDEX || AL->d.kind == K_INDEX)
+                    permute_index(C, L, pc);
+            }
+            else
+                permute_index(C, L, pc);
+            if (AL != &A)
+                permute_index(A, L, pa);
+            if (AL != &B)
+                permute_index(B, L, pb);
+        }
+        // operand values of this call
+        if (step == 0)
+        {
+            fresh_vals(A, L, vr, P.mode);
+            if (kd != 'f' && kd != 'i')
+                mutate_vals(A, L, kd, vr, P.mode);
+            fresh_vals(B, L, vr, P.mode);
+            if (kd != 'f' && kd != 'i')
+                mutate_vals(B, L, kd, vr, P.mode);
+        }
+        else
+        {
+            // both operands, or only one of them (the other keeps its contents); a broadcast constant always takes part
+            int who = (kd == 'f' || kd == 'i' || kd == 'k') ? 0 : (int)vr.below(4);
+            if (who != 3 || A.d.kind == K_CONST)
+                mutate_vals(A, L, kd, vr, P.mode);
+            if (who != 2 || B.d.kind == K_CONST)
+                mutate_vals(B, L, kd, vr, P.mode);
+        }
+        fill_garbage(A, run, step);
+        if (!P.share)
+            fill_garbage(B, run, step);
+        store_vals(A, L, x.A, x.va, gr);
+        store_vals(B, L, x.B, x.vb, gr);
+        if (A.mem)
+            A.snap = arena_snap(A.g);
+        if (B.mem)
+            B.snap = arena_snap(B.g);
+        read_vals(A, L, x.A, x.va, res.a);
+        read_vals(B, L, x.B, x.vb, res.b);
+        // precomputed sums of b (challenge variants): b0+b1, b0+b2, b1+b2 in some representation
+        std::vector<uint64_t> xsnap;
+        if (row.aux != AUX_NONE)
+        {
+            for (int j = 0; j < 24; j++)
+                x.X.raw[j] = gr.next();
+            int nk = row.aux == AUX_CONST ? 1 : L;
+            for (int k = 0; k < nk; k++)
+            {
+                uint64_t s[3] = {addp(res.b[k][0], res.b[k][1]), addp(res.b[k][0], res.b[k][2]), addp(res.b[k][1], res.b[k][2])};
+                for (int i = 0; i < 3; i++)
+                {
+                    if (vr.next() % 3 == 0 && s[i] < 0xFFFFFFFFULL)
+                        s[i] += PR;
+                    res.x[k][i] = s[i];
+                }
+            }
+            if (row.aux == AUX_CONST)
+            {
+                for (int k = 1; k < L; k++)
+                    for (int i = 0; i < 3; i++)
+                        res.x[k][i] = res.x[0][i];
+                for (int i = 0; i < 3; i++)
+                    gx.p[i] = res.x[0][i];
+                xsnap.assign(gx.p, gx.p + 3);
+            }
+            else
+                for (int k = 0; k < L; k++)
+                    for (int i = 0; i < 3; i++)
+                        x.X.raw[i * L + k] = res.x[k][i];
+        }
+        // result
+        if (C.mem)
+        {
+            if (AL)
+            {
+                for (int k = 0; k < L; k++)
+                    for (int i = 0; i < 3; i++)
+                        if (addr(C.d, k, i, C.s, C.idx) != addr(AL->d, k, i, AL->s, AL->idx))
+                            throw HarnessError{"aliased operand is not addressed like the result"};
+            }
+            else
+            {
+                uint64_t cs = (P.seed ^ 0xC16C16) + (uint64_t)step * 0x6A09E667F3BCULL;
+                for (uint64_t j = 0; j < C.n; j++)
+                    C.g.p[j] = run ? ~mix(cs, j) : mix(cs, j);
+            }
+            res.pre.assign(C.g.p, C.g.p + C.n);
+        }
+        else
+        {
+            for (int j = 0; j < 24; j++)
+                x.C.raw[j] = gr.next();
+            if (AL)
+                x.C = P.al == 1 ? x.A : x.B; // the in-place call site passes x.C as the operand
+        }
+        res.an = A.n; res.bn = B.n; res.cn = C.n;
+        res.wa = A.wide; res.wb = B.wide;
+        res.ia = A.idx; res.ib = B.idx; res.ic = C.idx;
+
+        fn(x);
+
+        for (int k = 0; k < L; k++)
+            for (int i = 0; i < 3; i++)
+                res.r[k][i] = C.mem ? C.g.p[addr(C.d, k, i, C.s, C.idx)] : x.C.raw[i * L + k];
+        if (C.mem)
+            res.out.assign(C.g.p, C.g.p + C.n);
+        res.inw = unchanged(A, L) && unchanged(B, L) && unchanged(C, L, false) && (!hasx || memcmp(gx.p, xsnap.data(), 24) == 0);
+        res.slack = slack_ok(A) && slack_ok(B) && slack_ok(C) && (!hasx || vh::gslack_ok(gx));
+    }
 }
 
 static std::string triples(const uint64_t v[8][3], int L, int w)
@@ -438,15 +695,23 @@ static std::vector<uint64_t> firsts(const Desc &d, int L, uint64_t s, const std:
             v.push_back(addr(d, k, 0, s, idx));
     return v;
 }
+static void harness_event(vh::Out &o, const Params &P, const char *what)
+{
+    o.begin("harness");
+    o.num("ci", P.ci);
+    o.str("id", P.id);
+    o.str("what", what);
+    o.end();
+}
 
 static void do_case(vh::Out &o, const Row &row, const Params &P)
 {
     const int L = row.L;
-    Res r1, r2;
+    std::vector<Res> h1, h2;
     try
     {
-        one_run(row, P, 0, r1);
-        one_run(row, P, 1, r2);
+        one_run(row, P, 0, h1);
+        one_run(row, P, 1, h2);
     }
     catch (Skip &sk)
     {
@@ -459,72 +724,84 @@ static void do_case(vh::Out &o, const Row &row, const Params &P)
     }
     catch (HarnessError &he)
     {
-        o.begin("harness");
-        o.num("ci", P.ci);
-        o.str("id", P.id);
-        o.str("what", he.why);
-        o.end();
+        harness_event(o, P, he.why);
         return;
     }
-    if (memcmp(r1.a, r2.a, sizeof(r1.a)) || memcmp(r1.b, r2.b, sizeof(r1.b)) || memcmp(r1.x, r2.x, sizeof(r1.x)) || r1.pre.size() != r2.pre.size())
+    if (h1.size() != h2.size() || h1.empty())
     {
-        // the two runs must see identical operands: anything else is a defect of this harness, not of the library
-        o.begin("harness");
-        o.num("ci", P.ci);
-        o.str("id", P.id);
-        o.str("what", "operands of the two runs differ");
-        o.end();
+        harness_event(o, P, "the two runs made a different number of calls");
         return;
     }
-    std::vector<uint64_t> chg;
-    bool same = memcmp(r1.r, r2.r, sizeof(r1.r)) == 0;
-    uint64_t nchg = 0;
-    for (size_t j = 0; j < r1.out.size(); j++)
-        if (r1.out[j] != r1.pre[j] || r2.out[j] != r2.pre[j])
+    for (size_t st = 0; st < h1.size(); st++)
+    {
+        const Res &r1 = h1[st], &r2 = h2[st];
+        if (memcmp(r1.a, r2.a, sizeof(r1.a)) || memcmp(r1.b, r2.b, sizeof(r1.b)) || memcmp(r1.x, r2.x, sizeof(r1.x)) || r1.pre.size() != r2.pre.size() ||
+            r1.ia != r2.ia || r1.ib != r2.ib || r1.ic != r2.ic)
         {
-            nchg++;
-            if (chg.size() < 64)
-                chg.push_back(j);
-            if (r1.out[j] != r2.out[j])
-                same = false;
+            // the two runs must see identical operands: anything else is a defect of this harness, not of the library
+            harness_event(o, P, "operands of the two runs differ");
+            return;
         }
-    o.begin("l16");
-    o.num("ci", P.ci);
-    o.str("id", P.id);
-    o.num("lanes", L);
-    o.str("al", P.al == 1 ? "a" : P.al == 2 ? "b" : "none");
-    // a huge stride does not fit a TLC integer: it is logged as limbs (saw / sbw), with positions apw / bpw and extent anw / bnw
-    o.boolean("wa", r1.wa);
-    o.boolean("wb", r1.wb);
-    o.num("sa", r1.wa ? 0 : P.sa);
-    o.num("sb", r1.wb ? 0 : P.sb);
-    o.num("sc", P.sc);
-    o.w64("saw", P.sa);
-    o.w64("sbw", P.sb);
-    o.raw("ia", ints(row.a.kind == K_INDEX ? P.ia : std::vector<uint64_t>()));
-    o.raw("ib", ints(row.b.kind == K_INDEX ? P.ib : std::vector<uint64_t>()));
-    o.raw("ic", ints(row.c.kind == K_INDEX ? P.ic : std::vector<uint64_t>()));
-    std::vector<uint64_t> fa = firsts(row.a, L, P.sa, P.ia), fb = firsts(row.b, L, P.sb, P.ib), none;
-    o.num("an", r1.wa ? 0 : r1.an);
-    o.num("bn", r1.wb ? 0 : r1.bn);
-    o.num("cn", r1.cn);
-    o.w64("anw", r1.an);
-    o.w64("bnw", r1.bn);
-    o.raw("ap", ints(r1.wa ? none : fa));
-    o.raw("bp", ints(r1.wb ? none : fb));
-    o.w64arr("apw", fa.data(), r1.wa ? fa.size() : 0);
-    o.w64arr("bpw", fb.data(), r1.wb ? fb.size() : 0);
-    o.raw("cp", ints(firsts(row.c, L, P.sc, P.ic)));
-    o.raw("a", triples(r1.a, L, row.a.w));
-    o.raw("b", triples(r1.b, L, row.b.w));
-    o.raw("x", row.aux == AUX_NONE ? std::string("[]") : triples(r1.x, L, 3));
-    o.raw("r", triples(r1.r, L, 3));
-    o.raw("chg", ints(chg));
-    o.num("nchg", nchg);
-    o.boolean("same", same);
-    o.boolean("inw", r1.inw && r2.inw);
-    o.boolean("slack", r1.slack && r2.slack);
-    o.end();
+    }
+    for (size_t st = 0; st < h1.size(); st++)
+    {
+        const Res &r1 = h1[st], &r2 = h2[st];
+        std::vector<uint64_t> chg;
+        bool same = memcmp(r1.r, r2.r, sizeof(r1.r)) == 0;
+        uint64_t nchg = 0;
+        for (size_t j = 0; j < r1.out.size(); j++)
+            if (r1.out[j] != r1.pre[j] || r2.out[j] != r2.pre[j])
+            {
+                nchg++;
+                if (chg.size() < 64)
+                    chg.push_back(j);
+                if (r1.out[j] != r2.out[j])
+                    same = false;
+            }
+        o.begin("l16");
+        o.num("ci", P.ci);
+        o.str("id", P.id);
+        o.num("lanes", L);
+        // position of the call in its history (hn = 1: a single call); hk = how the operand contents were derived from the
+        // previous call's (informative); sh: a and b are the same array (same pointer)
+        o.num("hs", (long long)st);
+        o.num("hn", (long long)h1.size());
+        o.str("hk", std::string(1, r1.kind));
+        o.boolean("sh", P.share);
+        o.str("al", P.al == 1 ? "a" : P.al == 2 ? "b" : "none");
+        // a huge stride does not fit a TLC integer: it is logged as limbs (saw / sbw), with positions apw / bpw and extent anw / bnw
+        o.boolean("wa", r1.wa);
+        o.boolean("wb", r1.wb);
+        o.num("sa", r1.wa ? 0 : P.sa);
+        o.num("sb", r1.wb ? 0 : P.sb);
+        o.num("sc", P.sc);
+        o.w64("saw", P.sa);
+        o.w64("sbw", P.sb);
+        o.raw("ia", ints(row.a.kind == K_INDEX ? r1.ia : std::vector<uint64_t>()));
+        o.raw("ib", ints(row.b.kind == K_INDEX ? r1.ib : std::vector<uint64_t>()));
+        o.raw("ic", ints(row.c.kind == K_INDEX ? r1.ic : std::vector<uint64_t>()));
+        std::vector<uint64_t> fa = firsts(row.a, L, P.sa, r1.ia), fb = firsts(row.b, L, P.sb, r1.ib), none;
+        o.num("an", r1.wa ? 0 : r1.an);
+        o.num("bn", r1.wb ? 0 : r1.bn);
+        o.num("cn", r1.cn);
+        o.w64("anw", r1.an);
+        o.w64("bnw", r1.bn);
+        o.raw("ap", ints(r1.wa ? none : fa));
+        o.raw("bp", ints(r1.wb ? none : fb));
+        o.w64arr("apw", fa.data(), r1.wa ? fa.size() : 0);
+        o.w64arr("bpw", fb.data(), r1.wb ? fb.size() : 0);
+        o.raw("cp", ints(firsts(row.c, L, P.sc, r1.ic)));
+        o.raw("a", triples(r1.a, L, row.a.w));
+        o.raw("b", triples(r1.b, L, row.b.w));
+        o.raw("x", row.aux == AUX_NONE ? std::string("[]") : triples(r1.x, L, 3));
+        o.raw("r", triples(r1.r, L, 3));
+        o.raw("chg", ints(chg));
+        o.num("nchg", nchg);
+        o.boolean("same", same);
+        o.boolean("inw", r1.inw && r2.inw);
+        o.boolean("slack", r1.slack && r2.slack);
+        o.end();
+    }
 }
 
 static std::vector<uint64_t> parse_list(const std::string &s)
@@ -581,6 +858,8 @@ int main(int argc, char **argv)
         P.ib = parse_list(t[8]);
         P.ic = parse_list(t[9]);
         P.al = t.size() > 10 ? (t[10] == "a" ? 1 : t[10] == "b" ? 2 : 0) : 0;
+        P.hist = t.size() > 11 && t[11] != "-" ? t[11] : std::string();
+        P.share = t.size() > 12 && t[12] == "1";
         auto it = byid.find(P.id);
         if (it == byid.end())
         {
